@@ -68,6 +68,11 @@ func (s *svcGen) fact() map[string]interface{} {
 	if s.r.Intn(2) == 0 {
 		f[s.g.Keys[s.r.Intn(len(s.g.Keys))]] = svcStrs[s.r.Intn(len(svcStrs))]
 	}
+	if s.r.Intn(6) == 0 {
+		// an array inside an array with a map in it (a YAML body decodes the inner map with
+		// interface{} keys: the conversion has to reach it)
+		f["grid"] = []interface{}{[]interface{}{map[string]interface{}{"col": 1.0}}, []interface{}{2.0, map[string]interface{}{"r": "x"}}}
+	}
 	s.facts = append(s.facts, f)
 	return f
 }
